@@ -364,8 +364,27 @@ func (w *gWorld) syncOnce(ctx string) (prop []int, newIR []int) {
 		prop = alphas[0].l
 		w.proposals++
 		w.r.Logf("  -> proposes %s (new: %s, leaving: %s)", gSetStr(prop), gStr(gMinus(prop, cur)), gStr(gMinus(cur, prop)))
+		w.r.Probe("sync:proposal")
+		if len(gMinus(prop, cur)) == limit {
+			w.r.Probe("sync:proposal-uses-the-whole-bound")
+		}
+		if len(gMinus(mainList, cur)) > limit {
+			w.r.Probe("sync:more-new-main-net-keys-than-the-bound")
+		}
 	} else {
 		w.r.Logf("  -> no proposal")
+		switch {
+		case !w.gotMain || !w.gotCommittee:
+			w.r.Probe("sync:no-proposal:list-unreadable")
+		case len(mainList) < n:
+			w.r.Probe("sync:no-proposal:main-net-list-shorter-than-alphabet")
+		case gSubset(mainList, cur):
+			w.r.Probe("sync:no-proposal:no-new-main-net-key")
+		case limit == 0:
+			w.r.Probe("sync:no-proposal:bound-is-zero")
+		default:
+			w.r.Probe("sync:no-proposal:new-keys-sort-after-the-first-n")
+		}
 	}
 
 	// progress: see Assumptions (a sync must move towards a main-net list of the same size)
@@ -391,6 +410,11 @@ func (w *gWorld) syncOnce(ctx string) (prop []int, newIR []int) {
 		case !pre:
 			w.r.Probe("inner-ring-check-skipped:list-lacks-alphabet-keys")
 			newIR = w.irUpd[0]
+			if gHasDup(newIR) || !gSubset(prop, newIR) {
+				// outside the quantifier (see Assumptions); counted as an observation only
+				w.r.Probe("observation:skewed-inner-ring-list-gets-duplicates-or-loses-alphabet-keys")
+				w.r.Logf("  (inner ring list lacked alphabet keys; derived list %s)", gStr(gSorted(newIR)))
+			}
 		default:
 			newIR = w.irUpd[0]
 			w.irChecked++
@@ -428,28 +452,36 @@ func (w *gWorld) syncOnce(ctx string) (prop []int, newIR []int) {
 	return prop, newIR
 }
 
-func (w *gWorld) planSync(faults bool) {
+// planSync draws the list views and the fault of the next sync.  Faults that leave the FS chain
+// in a skewed state (alphabet changed without the inner ring list or vice versa) only happen in
+// runs that enable skew: after them the inner ring list no longer contains the alphabet, which is
+// outside the lists the property quantifies over.
+func (w *gWorld) planSync(faults, skew bool) {
 	r := w.r
 	w.vMain = w.permuted(w.main)
 	w.vCommittee = w.permuted(w.committee)
 	w.vIR = w.permuted(w.ir)
 	w.fMain, w.fCommittee, w.fIR, w.fVote, w.fUpdIR, w.fNotary, w.fMainUpd = false, false, false, false, false, false, false
 	if faults && r.Bool(30) {
-		switch r.Intn(7) {
+		k := 4
+		if skew {
+			k = 7
+		}
+		switch r.Intn(k) {
 		case 0:
-			w.fVote = true
-		case 1:
-			w.fUpdIR = true
-		case 2:
-			w.fIR = true
-		case 3:
 			w.fNotary = true
-		case 4:
+		case 1:
 			w.fMainUpd = true
-		case 5:
+		case 2:
 			w.fMain = true
-		case 6:
+		case 3:
 			w.fCommittee = true
+		case 4:
+			w.fVote = true
+		case 5:
+			w.fUpdIR = true
+		case 6:
+			w.fIR = true
 		}
 		w.nFaults++
 	}
@@ -480,7 +512,7 @@ func runC36(r *simkit.R) {
 	zzvGovChain = w
 	r.OnCleanup(func() { zzvGovChain = nil })
 
-	n := []int{4, 7, 5, 6, 1, 2, 3, 8, 9}[r.Intn(9)]
+	n := []int{4, 7, 5, 6, 1, 2, 3, 8, 9}[r.Weighted(20, 25, 12, 12, 3, 3, 5, 10, 10)]
 	p := r.Perm(gU)
 	w.committee = append([]int(nil), p[:n]...)
 	rest := p[n:]
@@ -502,14 +534,15 @@ func runC36(r *simkit.R) {
 	}
 	dupRun := r.Bool(20)
 	faultRun := r.Bool(50)
+	skewRun := faultRun && r.Bool(40)
 	steps := 8 + r.Intn(25)
-	r.Logf("config: universe#%d of %d keys, alphabet=%s main-net=%s inner ring=%s, steps=%d, main-net duplicates %v, chain faults %v", salt, gU, gSetStr(w.committee), gStr(w.main), gSetStr(w.ir), steps, dupRun, faultRun)
+	r.Logf("config: universe#%d of %d keys, alphabet=%s main-net=%s inner ring=%s, steps=%d, main-net duplicates %v, chain faults %v, skewing faults %v", salt, gU, gSetStr(w.committee), gStr(w.main), gSetStr(w.ir), steps, dupRun, faultRun, skewRun)
 
 	for s := 0; s < steps; s++ {
 		r.Step()
 		switch r.Weighted(40, 35, 15, 10) {
 		case 0:
-			w.planSync(faultRun)
+			w.planSync(faultRun, skewRun)
 			w.epoch++
 			r.Op("sync #%d: alphabet=%s main-net=%s inner ring=%s%s", w.epoch, gSetStr(w.committee), gStr(w.main), gSetStr(w.ir), w.faultStr())
 			if len(gMinus(w.main, w.committee)) > 0 {
@@ -518,7 +551,7 @@ func runC36(r *simkit.R) {
 			prop, newIR := w.syncOnce(fmt.Sprintf("sync #%d", w.epoch))
 			if prop != nil && !w.fVote {
 				w.promoted += len(gMinus(prop, w.committee))
-				if r.Bool(20) {
+				if skewRun && r.Bool(30) {
 					w.pending = gSorted(prop)
 					r.Fired("vote-takes-effect-late")
 					r.Logf("chain: vote accepted, committee changes later")
@@ -588,7 +621,7 @@ func (w *gWorld) mutateMain(dupRun bool) {
 	if dupRun {
 		wDup = 25
 	}
-	switch r.Weighted(25, 15, 20, 10, 15, 10, wDup) {
+	switch r.Weighted(30, 18, 8, 10, 20, 8, wDup) {
 	case 0: // replace one key by an outside key
 		if len(out) > 0 && len(w.main) > 0 {
 			i := r.Intn(len(w.main))
@@ -756,7 +789,7 @@ func (w *gWorld) enumerateCell() {
 func TestVerif(t *testing.T) {
 	simkit.Main(t, &simkit.Property{
 		ID: "C36", Level: "exploration", Bubble: false, TapeLimit: 3000,
-		Rule: "each run = a history of 8-32 events over a universe of 10 deterministic keys (8 universes with different sort orders): alphabet (FS-chain committee) of size 1-9, main-net alphabet list (equal, disjoint of equal size, or superset at start) and an inner ring list = alphabet + 0-2 other nodes; events: main-net list changes (key replaced / added / removed / list reordered / whole new list / set back to the alphabet / a key listed twice in 20% of runs), inner ring nodes join (preferably main-net candidates) or leave, blocks and epochs pass, and sync events that run the real processAlphabetSync with permuted list views and, in half of the runs, one failing chain call (either list unreadable, inner ring list unreadable, vote / inner ring update / notary update / main-net contract update failing); accepted votes and inner ring updates are applied to the chain model (votes sometimes late) so the next sync starts from the new state. Oracle per sync from the statement: every recorded new alphabet (vote, notary list, main-net contract) has the current size, no duplicates, only current members and main-net keys, at most floor((n-1)/3) new keys, differs from the current alphabet, is only produced when both lists were read, and all three agree; the derived inner ring list (when the old one contains the alphabet) has no duplicates and equals the old list minus leaving keys plus new keys (same length unless a new key already was an inner ring node). Thorough tier additionally: ENUMERATION cell per run - the tape picks (alphabet subset of size 1-7, main-net subset) over 8 keys and all inner ring lists with 0-2 further keys are run exhaustively within the cell. distinct = trace digest; non-trivial = >= 1 proposal whose inner ring list was checked and (>= 1 injected chain fault, or a listed duplicate-key shape, or >= 2 keys promoted over the history)",
+		Rule: "each run = a history of 8-32 events over a universe of 10 deterministic keys (8 universes with different sort orders): alphabet (FS-chain committee) of size 1-9, main-net alphabet list (equal, disjoint of equal size, or superset at start) and an inner ring list = alphabet + 0-2 other nodes; events: main-net list changes (key replaced / added / removed / list reordered / whole new list / set back to the alphabet / a key listed twice in 20% of runs), inner ring nodes join (preferably main-net candidates) or leave, blocks and epochs pass, and sync events that run the real processAlphabetSync with permuted list views and, in half of the runs, one failing chain call per faulty sync (either alphabet list unreadable, notary update or main-net contract update failing; in 20% of the runs also the skewing faults: vote fails, inner ring update fails, inner ring list unreadable, vote takes effect only later); accepted votes and inner ring updates are applied to the chain model so the next sync starts from the new state. Oracle per sync from the statement: every recorded new alphabet (vote, notary list, main-net contract) has the current size, no duplicates, only current members and main-net keys, at most floor((n-1)/3) new keys, differs from the current alphabet, is only produced when both lists were read, and all three agree; the derived inner ring list (when the old one contains the alphabet) has no duplicates and equals the old list minus leaving keys plus new keys (same length unless a new key already was an inner ring node). Thorough tier additionally: ENUMERATION cell per run - the tape picks (alphabet subset of size 1-7, main-net subset) over 8 keys and all inner ring lists with 0-2 further keys are run exhaustively within the cell. distinct = trace digest; non-trivial = >= 1 proposal whose inner ring list was checked and (>= 1 injected chain fault, or a listed duplicate-key shape, or >= 2 keys promoted over the history)",
 		Run:  runC36,
 		Assumptions: []string{
 			"progress (from the function's doc comment and unit tests, not from the statement): when both lists were read, the main-net list is duplicate-free, has exactly the alphabet's size, differs from it and floor((n-1)/3) >= 1, a sync must propose a change",
